@@ -79,7 +79,13 @@ def run(tier, seed):
             new.append(so["name"])
         if not new:
             continue
-        strat["ops"] += reqs
+        if len(progs) % 2 == 1:
+            # outputs requested before the (unadjusted) stratifications are applied: requests name flows and
+            # compartments, so a later stratification must not change what they add up
+            at = next(i for i, o in enumerate(strat["ops"]) if o["op"] == "strat" and o["name"] in new)
+            strat["ops"] = strat["ops"][:at] + reqs + strat["ops"][at:]
+        else:
+            strat["ops"] += reqs
         strat["meta"] = dict(base.get("meta", {}), strats=base.get("meta", {}).get("strats", []) + ["unadjusted"] * len(new))
         pv = g.params_values(small=True)
         obs = [{"obs": "struct"}]
